@@ -4,7 +4,10 @@ import (
 	"bytes"
 	"fmt"
 	"os"
+	"os/exec"
+	"path/filepath"
 	"sort"
+	"strconv"
 	"strings"
 	"testing"
 
@@ -30,7 +33,8 @@ func TestMain(m *testing.M) {
 }
 
 func quiet() func() {
-	harness.SilenceStdout()
+	// (harness.SilenceStdout() has run in TestMain; calling it again while os.Stdout is the saved real
+	// stdout would make the harness take the silenced fd 1 for the real one)
 	os.Stdout = appStdout
 	return func() { os.Stdout = testStdout }
 }
@@ -250,6 +254,10 @@ func hostileCases() []hostileCase {
 	add("Stake/xxx-negative", func(w *W) *T { return Stake(w.Vals[3], w.Vals[3].Stake, xxxNeg, "h") })
 	add("Stake/olt-negative", func(w *W) *T { return Stake(w.Vals[0], w.Vals[0].Stake, oltNeg, "h") })
 	add("Stake/huge", func(w *W) *T { return Stake(w.Vals[0], w.Vals[0].Stake, huge, "h") })
+	add("Stake/two-pow-64-plus-600000", func(w *W) *T { // Int64() truncation: pays for 600000, records 2^64+600000
+		return Stake(w.Vals[3], w.Vals[3].Stake, Coin("OLT", harness.Amt("18446744073710151616")), "h")
+	})
+	add("Stake/zero", func(w *W) *T { return Stake(w.Vals[3], w.Vals[3].Stake, WholeOLT(0), "h") })
 	add("Stake/stake-address-third-party", func(w *W) *T {
 		return StakeRaw(w.Vals[3].Val, AddrOnly(third(w)), w.Vals[3].Val.Pub, w.Vals[3].Ecdsa.Pub, "x", WholeOLT(600000), "h", w.Vals[3].Stake, w.Vals[3].Val)
 	})
@@ -269,6 +277,7 @@ func hostileCases() []hostileCase {
 	add("Unstake/xxx-negative", func(w *W) *T { return Unstake(w.Vals[0].Val, w.Vals[0].Stake, xxxNeg, "h") })
 	add("Unstake/olt-negative", func(w *W) *T { return Unstake(w.Vals[0].Val, w.Vals[0].Stake, oltNeg, "h") })
 	add("Unstake/huge", func(w *W) *T { return Unstake(w.Vals[0].Val, w.Vals[0].Stake, huge, "h") })
+	add("Unstake/more-than-staked", func(w *W) *T { return Unstake(w.Vals[2].Val, w.Vals[2].Stake, WholeOLT(1000001), "h") })
 	add("Unstake/third-party-validator", func(w *W) *T {
 		return Unstake(AddrOnly(w.Vals[1].Val.Addr), w.Vals[0].Stake, WholeOLT(10), "h", w.Vals[0].Stake, w.Vals[0].Val)
 	})
@@ -280,6 +289,7 @@ func hostileCases() []hostileCase {
 	add("Withdraw/xxx-negative", func(w *W) *T { return Withdraw(w.Vals[0].Val, w.Vals[0].Stake, xxxNeg, "h") })
 	add("Withdraw/olt-negative", func(w *W) *T { return Withdraw(w.Vals[0].Val, w.Vals[0].Stake, oltNeg, "h") })
 	add("Withdraw/huge", func(w *W) *T { return Withdraw(w.Vals[0].Val, w.Vals[0].Stake, huge, "h") })
+	add("Withdraw/nothing-matured", func(w *W) *T { return Withdraw(w.Vals[0].Val, w.Vals[0].Stake, WholeOLT(1), "h") })
 	add("Withdraw/third-party-stake-address", func(w *W) *T {
 		return Withdraw(w.Vals[0].Val, AddrOnly(w.Vals[1].Stake.Addr), WholeOLT(10), "h", w.Vals[0].Stake, w.Vals[0].Val)
 	})
@@ -287,6 +297,7 @@ func hostileCases() []hostileCase {
 	add("Delegate/xxx-negative", func(w *W) *T { return Delegate(w.Users[0], xxxNeg, "h") })
 	add("Delegate/olt-negative", func(w *W) *T { return Delegate(w.Users[0], oltNeg, "h") })
 	add("Delegate/huge", func(w *W) *T { return Delegate(w.Users[0], huge, "h") })
+	add("Delegate/zero", func(w *W) *T { return Delegate(w.Users[0], OLT(0), "h") })
 	add("Delegate/third-party", func(w *W) *T { return Delegate(AddrOnly(third(w)), OLT(5), "h", w.Users[0]) })
 	// NETWORK_UNDELEGATE
 	add("Undelegate/xxx-negative", func(w *W) *T { return Undelegate(w.Users[0], xxxNeg, "h") })
@@ -344,58 +355,137 @@ func hostileCases() []hostileCase {
 	return cs
 }
 
+// runHostile executes one hostile transaction in one mode ("check" or "deliver") on a fresh run and
+// returns a one-line description of what happened.
+func runHostile(hc hostileCase, mode string) string {
+	w := harness.NewWorld("stk-hostile", 4, 3)
+	x, err := harness.StartRun(w)
+	if err != nil {
+		return "start: " + err.Error()
+	}
+	defer x.Close()
+	if err := x.Empty(3); err != nil { // validator status records exist from EndBlock(2)
+		return "setup: " + err.Error()
+	}
+	tx := hc.tx(w)
+	tx.Memo = "hostile-" + hc.name
+	if mode == "check" {
+		r := x.R.CheckTx(tx.Bytes())
+		return fmt.Sprintf("CheckTx code=%d dead=%v log=%q", r.Code, x.R.Dead, short(r.Log))
+	}
+	res, err := x.Block(harness.BlockSpec{Txs: []*harness.TxSpec{tx}, NoCheck: true})
+	code, log := uint32(0), ""
+	if res != nil && len(res.Txs) == 1 {
+		code, log = res.Txs[0].Code, res.Txs[0].Log
+	}
+	changed := "n/a"
+	if !x.R.Dead {
+		// compare with an empty block at the same height
+		y, err2 := harness.StartRun(harness.NewWorld("stk-hostile", 4, 3))
+		if err2 == nil {
+			if y.Empty(4) == nil {
+				changed = fmt.Sprint(harness.DigestOf(y.R.Dump()) != harness.DigestOf(x.R.Dump()))
+			}
+			y.Close()
+		}
+	}
+	// a few more blocks: does the application survive its own block-level hooks, and would Tendermint
+	// accept the validator updates it returns?
+	later := "ok"
+	for i := 0; i < 4 && err == nil && !x.R.Dead; i++ {
+		if _, e := x.Block(harness.BlockSpec{}); e != nil {
+			later = fmt.Sprintf("HALT at +%d: %v", i+1, e)
+			break
+		}
+	}
+	if x.R.Dead {
+		later = "application dead"
+	}
+	return fmt.Sprintf("DeliverTx code=%d dead=%v halt=%v stateDiffersFromEmptyBlock=%s next4blocks=%s log=%q", code, x.R.Dead, err, changed, later, short(log))
+}
+
+var hostileModes = []string{"check", "deliver"}
+
+func selectedHostileCases() []hostileCase {
+	only := os.Getenv("STK_ONLY")
+	var out []hostileCase
+	for _, hc := range hostileCases() {
+		if only == "" || strings.Contains(hc.name, only) {
+			out = append(out, hc)
+		}
+	}
+	return out
+}
+
+// TestConstructorsHostile sends hostile field values through CheckTx and (without CheckTx) through
+// DeliverTx and only LOGS what happens. Some inputs make the repository call logger.Fatal (os.Exit),
+// which would take the whole test process down; therefore the cases run in a child process (this
+// test binary re-executed with STK_HOSTILE_CHILD set) that reports step by step; when the child dies
+// the step it was in is recorded as "TEST PROCESS DIED" and a new child resumes with the next step.
+// Known process killers at the time of writing (see the final report of this package):
+//   - Undelegate/xxx-negative, in CheckTx and in DeliverTx: NETWORK_UNDELEGATE with an unknown currency
+//     -> balance.Coin.Minus on a coin without currency -> logger.Fatal("Mismatching currencies").
 func TestConstructorsHostile(t *testing.T) {
+	if os.Getenv("STK_HOSTILE_CHILD") != "" {
+		hostileChild()
+		return
+	}
+	defer harness.RemoveScratch()
+	cases := selectedHostileCases()
+	total := len(cases) * len(hostileModes)
+	results := make([]string, total)
+	died := 0
+	for next := 0; next < total; {
+		// a child killed by os.Exit leaves its replica directories behind: one scratch root per child
+		scratch := filepath.Join(harness.ScratchRoot, "hostile-child-"+strconv.Itoa(next))
+		cmd := exec.Command(os.Args[0], "-test.run=^TestConstructorsHostile$")
+		cmd.Env = append(os.Environ(), "STK_HOSTILE_CHILD=1", "STK_HOSTILE_FROM="+strconv.Itoa(next), "VERIF_SCRATCH="+scratch)
+		out, err := cmd.Output()
+		os.RemoveAll(scratch)
+		begun := -1
+		for _, ln := range strings.Split(string(out), "\n") {
+			var s int
+			if n, _ := fmt.Sscanf(ln, "@@BEGIN %d", &s); n == 1 {
+				begun = s
+			} else if n, _ := fmt.Sscanf(ln, "@@RESULT %d", &s); n == 1 && s >= 0 && s < total {
+				results[s] = strings.SplitN(ln, " ", 3)[2]
+				if s == begun {
+					begun = -1
+				}
+				if s >= next {
+					next = s + 1
+				}
+			}
+		}
+		if begun >= 0 {
+			results[begun] = fmt.Sprintf("%s: TEST PROCESS DIED (%v)", hostileModes[begun%len(hostileModes)], err)
+			died++
+			next = begun + 1
+		} else if next < total {
+			// the child ended without reporting progress: do not loop forever
+			results[next] = fmt.Sprintf("child made no progress (%v): %s", err, short(string(out)))
+			next++
+		}
+	}
+	for i, hc := range cases {
+		var line []string
+		for m := range hostileModes {
+			line = append(line, results[i*len(hostileModes)+m])
+		}
+		t.Logf("%-50s %s", hc.name, strings.Join(line, " | "))
+	}
+	t.Logf("%d hostile cases, %d steps killed the test process", len(cases), died)
+}
+
+func hostileChild() {
 	defer quiet()()
 	defer harness.RemoveScratch()
-	only := os.Getenv("STK_ONLY")
-	for _, hc := range hostileCases() {
-		if only != "" && !strings.Contains(hc.name, only) {
-			continue
-		}
-		// CheckTx and DeliverTx on two separate fresh runs so that a dead application in one does not
-		// mask the other.
-		var line []string
-		for _, mode := range []string{"check", "deliver"} {
-			w := harness.NewWorld("stk-hostile", 4, 3)
-			x, err := harness.StartRun(w)
-			if err != nil {
-				t.Fatalf("%s: start: %v", hc.name, err)
-			}
-			if err := x.Empty(3); err != nil { // validator status records exist from EndBlock(2)
-				x.Close()
-				t.Fatalf("%s: %v", hc.name, err)
-			}
-			tx := hc.tx(w)
-			tx.Memo = "hostile-" + hc.name
-			before := harness.DigestOf(x.R.Dump())
-			switch mode {
-			case "check":
-				r := x.R.CheckTx(tx.Bytes())
-				line = append(line, fmt.Sprintf("CheckTx code=%d dead=%v log=%q", r.Code, x.R.Dead, short(r.Log)))
-			case "deliver":
-				res, err := x.Block(harness.BlockSpec{Txs: []*harness.TxSpec{tx}, NoCheck: true})
-				code, log := uint32(0), ""
-				if res != nil && len(res.Txs) == 1 {
-					code, log = res.Txs[0].Code, res.Txs[0].Log
-				}
-				changed := "n/a"
-				if !x.R.Dead {
-					// compare with an empty block at the same height
-					w2 := harness.NewWorld("stk-hostile", 4, 3)
-					y, err2 := harness.StartRun(w2)
-					if err2 == nil {
-						if y.Empty(4) == nil {
-							changed = fmt.Sprint(harness.DigestOf(y.R.Dump()) != harness.DigestOf(x.R.Dump()))
-						}
-						y.Close()
-					}
-				}
-				_ = before
-				line = append(line, fmt.Sprintf("DeliverTx code=%d dead=%v halt=%v stateDiffersFromEmptyBlock=%s log=%q", code, x.R.Dead, err, changed, short(log)))
-			}
-			x.Close()
-		}
-		t.Logf("%-55s %s", hc.name, strings.Join(line, " | "))
+	cases := selectedHostileCases()
+	from, _ := strconv.Atoi(os.Getenv("STK_HOSTILE_FROM"))
+	for s := from; s < len(cases)*len(hostileModes); s++ {
+		harness.Outf("@@BEGIN %d\n", s)
+		line := runHostile(cases[s/len(hostileModes)], hostileModes[s%len(hostileModes)])
+		harness.Outf("@@RESULT %d %s\n", s, strings.ReplaceAll(line, "\n", " "))
 	}
 }
 
